@@ -329,6 +329,15 @@ func randVars(c *Ctx) map[string]string {
 				k = strings.ToLower(n)
 			}
 			m[k] = vals[c.Rng.Intn(len(vals))]
+			if c.Rng.Intn(6) == 0 {
+				// a second key that differs in letter case only, holding another value
+				for _, k2 := range []string{strings.ToUpper(n), strings.ToLower(n), n} {
+					if k2 != k {
+						m[k2] = vals[c.Rng.Intn(len(vals))]
+						break
+					}
+				}
+			}
 		}
 	}
 	return m
@@ -414,7 +423,8 @@ func propC10(c *Ctx) {
 	}
 	rec(nil)
 	// the malformed classes the property names, at every nesting position
-	for _, bad := range []string{"{{a", "{{#a}}x", "x{{/a}}", "{{#a}}x{{/b}}", "{{a}}}", "{{{a}}", "{{#a}}{{#b}}x{{/a}}{{/b}}", "{{^a}}", "{{#if a}}x{{/unless}}{{/if}}", "{{/}}", "{{}}", "{{# }}x{{/}}", "{{a b}}", "{{!c"} {
+	for _, bad := range []string{"{{#if a}}x{{/if b}}", "{{#a}}x{{/if b}}", "{{^a}}x{{/unless b}}", "{{#unless a}}x{{/unless b}}", "{{#a}}{{#b}}x{{/if a}}{{/if b}}",
+		"{{a", "{{#a}}x", "x{{/a}}", "{{#a}}x{{/b}}", "{{a}}}", "{{{a}}", "{{#a}}{{#b}}x{{/a}}{{/b}}", "{{^a}}", "{{#if a}}x{{/unless}}{{/if}}", "{{/}}", "{{}}", "{{# }}x{{/}}", "{{a b}}", "{{!c"} {
 		o := runTemplate(bad, map[string]string{"a": "1", "b": "1"})
 		op := "tpl " + strRunes(bad)
 		c.record(op, true)
